@@ -6,9 +6,11 @@ package mqtt
 
 import (
 	"bytes"
+	"context"
 	"errors"
 	"fmt"
 	"io"
+	"sync"
 	"testing"
 	"time"
 
@@ -718,4 +720,134 @@ func TestVerifC06_Connected(t *testing.T) {
 			MaxRead: rapid.SampledFrom([]int{0, 0, 1, 3}).Draw(rt, "maxRead"),
 		}
 	}, c06ConnRun)
+}
+
+// ---------------------------------------------------------------------------
+// target 4: well-formed but hostile answers while requests are in flight
+
+type c06Answer struct {
+	Kind  string `json:"kind"`  // ack type name: SUBACK PUBACK PUBREC PUBCOMP UNSUBACK CONNACK PINGRESP PUBREL PUBLISH
+	Req   int    `json:"req"`   // index of the request whose id is used (-1: unused id)
+	Codes []int  `json:"codes"` // SUBACK payload bytes
+}
+
+type c06InFlightCase struct {
+	Reqs    []c07Req    `json:"reqs"`
+	Answers []c06Answer `json:"answers"`
+}
+
+var c06AnswerTypes = map[string]int{"SUBACK": rtSubAck, "PUBACK": rtPubAck, "PUBREC": rtPubRec, "PUBCOMP": rtPubComp, "UNSUBACK": rtUnsubAck, "PUBREL": rtPubRel}
+
+// c06InFlightRun: 1..4 requests are blocked waiting; the peer answers with acknowledgements that are
+// well-formed packets but inconsistent with the requests (SUBACK with too many / too few / reserved
+// codes, acknowledgements of another kind carrying a pending id, ...), then closes. Nothing may
+// panic, in the reader or in the calling goroutines, and every call must return.
+func c06InFlightRun(tb rapid.TB, c c06InFlightCase) {
+	r := newBaseRig()
+	defer r.shutdown()
+	r.connect(tb)
+	ctx, cancel := context.WithTimeout(context.Background(), 30*time.Second)
+	defer cancel()
+	n := len(c.Reqs)
+	var wg sync.WaitGroup
+	panics := make(chan string, n)
+	for i, q := range c.Reqs {
+		i, q := i, q
+		wg.Add(1)
+		go func() {
+			defer wg.Done()
+			defer func() {
+				if p := recover(); p != nil {
+					panics <- fmt.Sprintf("request %d (%s): %v", i, q.Kind, p)
+				}
+			}()
+			tag := fmt.Sprintf("r/%d", i)
+			switch q.Kind {
+			case "pub1":
+				_ = r.cli.Publish(ctx, &Message{Topic: tag, QoS: QoS1})
+			case "pub2":
+				_ = r.cli.Publish(ctx, &Message{Topic: tag, QoS: QoS2})
+			case "sub":
+				req := []Subscription{{Topic: tag, QoS: QoS2}}
+				for k := 1; k < q.NFilters; k++ {
+					req = append(req, Subscription{Topic: fmt.Sprintf("%s/f%d", tag, k), QoS: QoS1})
+				}
+				_, _ = r.cli.Subscribe(ctx, req...)
+			case "unsub":
+				_ = r.cli.Unsubscribe(ctx, tag)
+			}
+		}()
+	}
+	isReq := func(pk refPacket) bool {
+		return pk.Type == rtPublish || pk.Type == rtSubscribe || pk.Type == rtUnsubscribe
+	}
+	if !r.peer.waitRecv(20*time.Second, isReq, n) {
+		vFailf(tb, r.log.strings(40), "only %d of %d requests reached the wire", r.peer.countRecv(isReq), n)
+	}
+	ids := make([]int, n)
+	for _, pk := range r.peer.received() {
+		if !isReq(pk) {
+			continue
+		}
+		name := pk.Topic
+		if pk.Type != rtPublish {
+			name = pk.Filters[0]
+		}
+		var idx int
+		fmt.Sscanf(name, "r/%d", &idx)
+		ids[idx] = pk.ID
+	}
+	for _, a := range c.Answers {
+		id := 7
+		if a.Req >= 0 && a.Req < n {
+			id = ids[a.Req]
+		}
+		switch a.Kind {
+		case "CONNACK":
+			r.peer.send(refPacket{Type: rtConnAck})
+		case "PINGRESP":
+			r.peer.send(refPacket{Type: rtPingResp})
+		case "PUBLISH":
+			r.peer.send(refPacket{Type: rtPublish, QoS: 1, ID: id, Topic: "x"})
+		default:
+			r.peer.send(refPacket{Type: c06AnswerTypes[a.Kind], ID: id, Codes: a.Codes})
+		}
+	}
+	r.peer.sync(5 * time.Second)
+	r.conn.peerClose(false)
+	donech := make(chan struct{})
+	go func() { wg.Wait(); close(donech) }()
+	select {
+	case <-donech:
+	case <-time.After(25 * time.Second):
+		vFailf(tb, map[string]interface{}{"log": r.log.strings(40), "goroutines": vGoroutineDump()}, "calls still blocked after hostile answers and the end of the connection")
+	}
+	select {
+	case p := <-panics:
+		vFailf(tb, r.log.strings(40), "a calling goroutine panicked on a well-formed but inconsistent answer: %s", p)
+	default:
+	}
+	vCount("C06", len(c.Answers) >= 1, vJSON(c), []string{"inflight"}, func() interface{} { return c })
+}
+
+func TestVerifC06_InFlight(t *testing.T) {
+	vRun(t, "C06", vOpts{CurFile: true}, func(rt *rapid.T) c06InFlightCase {
+		var c c06InFlightCase
+		c.Reqs = rapid.SliceOfN(rapid.Custom(func(rt *rapid.T) c07Req {
+			q := c07Req{Kind: rapid.SampledFrom([]string{"pub1", "pub2", "sub", "sub", "unsub"}).Draw(rt, "kind")}
+			if q.Kind == "sub" {
+				q.NFilters = rapid.IntRange(1, 3).Draw(rt, "nf")
+			}
+			return q
+		}), 1, 4).Draw(rt, "reqs")
+		n := len(c.Reqs)
+		c.Answers = rapid.SliceOfN(rapid.Custom(func(rt *rapid.T) c06Answer {
+			a := c06Answer{Kind: rapid.SampledFrom([]string{"SUBACK", "SUBACK", "SUBACK", "PUBACK", "PUBREC", "PUBCOMP", "UNSUBACK", "PUBREL", "CONNACK", "PINGRESP", "PUBLISH"}).Draw(rt, "kind"), Req: rapid.IntRange(-1, n-1).Draw(rt, "req")}
+			if a.Kind == "SUBACK" {
+				a.Codes = rapid.SliceOfN(rapid.SampledFrom([]int{0, 1, 2, 3, 0x7F, 0x80, 0xFF}), 0, 6).Draw(rt, "codes")
+			}
+			return a
+		}), 1, 8).Draw(rt, "answers")
+		return c
+	}, c06InFlightRun)
 }
